@@ -18,6 +18,8 @@ import os
 from .. import core, hist
 from ..gen import KEY_POOL, hx, rng_for
 
+EXTRA_PROP_MODULES = [("KB.Props.OrderC05", "KB.OrderC05")]
+
 INIT = hist.INIT
 WATCH_BUFFER = 10000
 RESULT_CHAN = 100
